@@ -155,10 +155,11 @@ pub struct Stage {
 
 pub fn stages(args: &Args, mode: Mode, allow_orient: bool) -> Vec<Stage> {
     let q = args.quick();
+    let sm = crate::small();
     let po = |max_calls: i64, max_px: u64| ProgOpts {
         mode,
-        max_calls,
-        max_px,
+        max_calls: if sm { max_calls.min(4) } else { max_calls },
+        max_px: if sm { max_px.min(60) } else { max_px },
         allow_clear: true,
         allow_orient,
         allow_misc: false,
@@ -169,16 +170,16 @@ pub fn stages(args: &Args, mode: Mode, allow_orient: bool) -> Vec<Stage> {
         Stage {
             name: "l2-small",
             mode,
-            cfg: CfgOpts { external: true, l1: false, l2: true, max_l2_area: if q { 24 * 24 } else { 64 * 64 } },
+            cfg: CfgOpts { external: true, l1: false, l2: true, max_l2_area: if sm { 36 } else if q { 24 * 24 } else { 64 * 64 } },
             prog: po(if q { 10 } else { 30 }, if q { 600 } else { 4096 }),
-            n: args.n(1800, 60_000),
+            n: args.n(20_000, 400_000),
         },
         Stage {
             name: "l1-any-size",
             mode,
             cfg: CfgOpts { external: true, l1: true, l2: false, max_l2_area: 0 },
             prog: po(if q { 12 } else { 40 }, if q { 4096 } else { 1 << 16 }),
-            n: args.n(1500, 60_000),
+            n: args.n(20_000, 400_000),
         },
     ];
     if !q {
@@ -187,7 +188,7 @@ pub fn stages(args: &Args, mode: Mode, allow_orient: bool) -> Vec<Stage> {
             mode,
             cfg: CfgOpts { external: false, l1: false, l2: true, max_l2_area: 320 * 480 },
             prog: po(12, 320 * 480),
-            n: args.n(0, 1500),
+            n: args.n(0, 3000),
         });
     }
     v
@@ -338,6 +339,10 @@ fn floors(a: &mut Acc, mode: Mode, quick: bool) {
 
 pub fn c01(args: &Args) -> Acc {
     let mut a = run_draw(args, "C01", Mode::InBounds, false, &[Attr::Placement]);
+    // the same programs with runtime orientation changes in between: the orientation the
+    // display is *currently* configured with decides placement
+    let b = run_draw(args, "C01/reorient", Mode::InBounds, true, &[Attr::Placement]);
+    a.merge(b);
     if args.case.is_none() && args.stage.is_none() {
         floors(&mut a, Mode::InBounds, args.quick());
     }
